@@ -315,24 +315,31 @@ bool population<T>::load(std::istream &in, const problem &prob)
     return false;
 
   population p(prob);
-  p.pop_.reserve(n_layers);
-  p.allowed_.reserve(n_layers);
+  p.pop_.clear();
+  p.allowed_.clear();
 
   for (decltype(n_layers) l(0); l < n_layers; ++l)
   {
-    if (!(in >> p.allowed_[l]))
+    unsigned n_allowed(0), n_elem(0);
+    if (!(in >> n_allowed >> n_elem) || n_elem > n_allowed)
       return false;
 
-    unsigned n_elem(0);
-    if (!(in >> n_elem))
-      return false;
+    layer_t layer;
+    layer.reserve(n_allowed);
 
     for (decltype(n_elem) i(0); i < n_elem; ++i)
-      if (!p[{l, i}].load(in, prob.sset))
+    {
+      T ind;
+      if (!ind.load(in, prob.sset))
         return false;
+      layer.push_back(ind);
+    }
+
+    p.pop_.push_back(std::move(layer));
+    p.allowed_.push_back(n_allowed);
   }
 
-  *this = p;
+  *this = std::move(p);
   return true;
 }
 
